@@ -34,7 +34,7 @@ MODEL = "model_of"
 RULE = ("(1) converter trees: every tree of depth <= 1 over 13 leaf kinds (plain / Converter with each "
         "takes_self x takes_field combination / default_if_none value+factory; functions that answer a "
         "symbol, None, their argument, or raise) x 3 inputs x {standalone, __init__, assignment}, plus "
-        "seeded random trees to depth 4 (pipe width <= 4) in random class flavours (attr.s/define, slots, "
+        "seeded random trees to depth 4 (pipe width <= 4, <= 6 for the 20% of trees without Converter members) in random class flavours (attr.s/define, slots, "
         "frozen, value passed / class default / Factory default, list-converter spelling, on_setattr at "
         "class or field level, direct setters.convert call); the result is compared as a symbolic term "
         "together with the factory call counter.  (2) to_bool: every letter-case of every documented "
@@ -244,13 +244,15 @@ def enc_exc(e):
 
 INIT_FLAVOURS = ["attr.s", "attr.s-slots", "attr.s-frozen", "attr.s-frozen-slots", "define", "frozen",
                  "define-noslots"]
-INIT_PASS = ["arg", "kwarg", "default", "factory"]
+INIT_PASS = ["arg", "kwarg", "default", "factory", "noinit-default", "noinit-factory"]
 SET_FLAVOURS = ["cls-convert", "cls-list", "field-convert", "define", "define-noslots", "cls-pipe-slots",
                 "direct"]
 
 
-def _mk_class(flavour, conv_obj, have_conv, default=attr.NOTHING, as_list=None):
+def _mk_class(flavour, conv_obj, have_conv, default=attr.NOTHING, as_list=None, init=True):
     kw = {}
+    if not init:
+        kw["init"] = False
     if have_conv:
         kw["converter"] = as_list if as_list is not None else conv_obj
     if default is not attr.NOTHING:
@@ -320,11 +322,11 @@ def real_conv(inp):
         if ctx == "IN":
             how = inp["pass"]
             default = attr.NOTHING
-            if how == "default":
+            if how in ("default", "noinit-default"):
                 default = vs[0]
-            elif how == "factory":
+            elif how in ("factory", "noinit-factory"):
                 default = Factory(lambda: vs[0])
-            cls = _mk_class(inp["flavour"], obj, have, default, as_list)
+            cls = _mk_class(inp["flavour"], obj, have, default, as_list, init=not how.startswith("noinit"))
             field = attr.fields(cls).x
             _State.counter = n0
             for v in vs:
@@ -367,7 +369,7 @@ def enc_in(v):
 
 
 def mk_conv_case(inp):
-    if inp["ctx"] == "IN" and inp.get("pass") in ("default", "factory"):
+    if inp["ctx"] == "IN" and inp.get("pass") not in ("arg", "kwarg"):
         inp["vs"] = [inp["vs"][0]] * len(inp["vs"])      # a class has one default
     seen, n1, sj = real_conv(inp)
     t = inp["tree"]
@@ -412,13 +414,17 @@ def rand_leaf(rng):
     return ["fac", rng.randrange(10), rng.choice(["kw", "Factory"])]
 
 
-def rand_tree(rng, d):
+def rand_tree(rng, d, plain=False):
+    """plain=True: no Converter member anywhere (pipe/optional then take their one-argument paths)."""
     if d == 0 or rng.random() < 0.15:
-        return rand_leaf(rng)
+        while True:
+            l = rand_leaf(rng)
+            if not (plain and l[0] == "conv"):
+                return l
     if rng.random() < 0.35:
-        return ["opt", rand_tree(rng, d - 1)]
-    n = rng.choice([0, 1, 2, 2, 3, 3, 4])
-    return ["pipe", [rand_tree(rng, d - 1) for _ in range(n)]]
+        return ["opt", rand_tree(rng, d - 1, plain)]
+    n = rng.choice([0, 1, 2, 2, 3, 3, 4, 5, 6] if plain else [0, 1, 2, 2, 3, 3, 4])
+    return ["pipe", [rand_tree(rng, d - 1, plain) for _ in range(n)]]
 
 
 def rand_ctx(rng, inp):
@@ -455,6 +461,22 @@ def gen_conv(tier, rng):
                     inp["flavour"] = SET_FLAVOURS[k % len(SET_FLAVOURS)]
                     inp["as_list"] = (k % 5 == 0)
                 cases.append(mk_conv_case(inp))
+    # a bare Converter (every flag combination) / plain function as the field's converter, in every
+    # class flavour and passing mode: the four branches of _fmt_converter_call and of __call__
+    for ts in (False, True):
+        for tf in (False, True):
+            for leaf in (["conv", 3, ts, tf], ["opt", ["conv", 4, ts, tf]], ["pipe", [["conv", 5, ts, tf]]]):
+                for fl in INIT_FLAVOURS:
+                    for how in INIT_PASS:
+                        cases.append(mk_conv_case({"part": "conv", "tree": leaf, "vs": [0, 1], "n0": 2,
+                                                   "ctx": "IN", "flavour": fl, "pass": how, "as_list": False}))
+                for fl in SET_FLAVOURS:
+                    cases.append(mk_conv_case({"part": "conv", "tree": leaf, "vs": [0, None, 1], "n0": 2,
+                                               "ctx": "AS", "flavour": fl, "as_list": False}))
+    for fl in INIT_FLAVOURS:
+        for how in INIT_PASS:
+            cases.append(mk_conv_case({"part": "conv", "tree": ["fun", 6], "vs": [0, None], "n0": 2,
+                                       "ctx": "IN", "flavour": fl, "pass": how, "as_list": False}))
     # no converter at all: identity in __init__ and on assignment
     for v in (0, None):
         for ctx, fl in (("IN", "attr.s"), ("IN", "define"), ("AS", "cls-convert"), ("AS", "define"), ("AS", "direct")):
@@ -463,9 +485,10 @@ def gen_conv(tier, rng):
     n_random = 2500 if tier == "quick" else 24000
     for _ in range(n_random):
         d = rng.choice([2, 3, 3, 4, 4, 4])
-        t = rand_tree(rng, d)
+        plain = rng.random() < 0.2
+        t = rand_tree(rng, d, plain)
         if t[0] not in ("pipe", "opt"):
-            t = ["pipe", [t, rand_tree(rng, d - 1)]]
+            t = ["pipe", [t, rand_tree(rng, d - 1, plain)]]
         vs = [rng.choice([None, None, None] + list(range(N_TOK))) for _ in range(rng.choice([1, 2, 2, 3]))]
         inp = rand_ctx(rng, {"part": "conv", "tree": t, "vs": vs, "n0": rng.randrange(40)})
         cases.append(mk_conv_case(inp))
@@ -850,7 +873,10 @@ def mk_cmp_case(inp):
     kwargs = {op: mk_cmp_func(op, behs[op]) for op in FUNCS if have[op]}
     seen_json = None
     try:
-        cls = cmp_using(require_same_type=rst, **kwargs)
+        if rst and inp.get("rst_default"):
+            cls = cmp_using(**kwargs)                 # documented default: require_same_type=True
+        else:
+            cls = cmp_using(require_same_type=rst, **kwargs)
     except ValueError:
         seen = "None"
         seen_json = "ValueError"
@@ -897,11 +923,12 @@ def gen_cmp(tier, rng):
         for rst in (True, False):
             for p in range(len(C_PAIRS)):
                 cases.append(mk_cmp_case({"part": "cmp", "have": have, "rst": rst, "pair": p,
-                                          "behs": {op: "H" for op in FUNCS}}))
+                                          "rst_default": p % 2 == 0, "behs": {op: "H" for op in FUNCS}}))
     for _ in range(500 if tier == "quick" else 6000):
         have = {op: rng.random() < 0.55 for op in FUNCS}
         behs = {op: (rng.choice(BEHS) if have[op] else "H") for op in FUNCS}
         cases.append(mk_cmp_case({"part": "cmp", "have": have, "rst": rng.random() < 0.6,
+                                  "rst_default": rng.random() < 0.5,
                                   "pair": rng.randrange(len(C_PAIRS)), "behs": behs}))
     return cases
 
